@@ -57,6 +57,18 @@ func lemmaTokenParseSerialize(src []byte) bool {
 
 // serialise o parse = identity on messages
 
+// (the fixed part of a token, no optional tail: cheap enough for the quick tier)
+func lemmaTokenHeaderSerializeParse(version, reserved uint8, length uint16, indicator, typeCredit uint8, dstRef, srcRef uint16, classOptions uint8) bool {
+	t := &RDPToken{Version: version, Reserved: reserved, Length: length, LengthIndicator: indicator, TypeCredit: typeCredit, DstRef: dstRef, SrcRef: srcRef, ClassOptions: classOptions}
+	out, err := t.ToBytes()
+	if err != nil {
+		return false
+	}
+	g := &RDPToken{}
+	return g.FromBytes(out) == nil && g.Version == version && g.Reserved == reserved && g.Length == length && g.LengthIndicator == indicator &&
+		g.TypeCredit == typeCredit && g.DstRef == dstRef && g.SrcRef == srcRef && g.ClassOptions == classOptions && len(g.Optional) == 0
+}
+
 func lemmaTPKTSerializeParse(h TPKTHeader) bool {
 	out, err := h.ToBytes()
 	if err != nil {
